@@ -67,6 +67,7 @@ def harness(cfg, ns):
             c = co.Continuum()
             st0, en0, st1, en1 = ctx.fresh("s0_"), ctx.fresh("e0_"), ctx.fresh("s1_"), ctx.fresh("e1_")
             ctx.solver.add(en0.e - st0.e > lift(ns.pseg.SEGMENT_PRECISION), en1.e - st1.e > lift(ns.pseg.SEGMENT_PRECISION))
+            ctx.solver.add(st0.e >= -64, en0.e <= 64, st1.e >= -64, en1.e <= 64)
             c.add(ANN[0], Segment(st0, en0), "x")
             c.add(ANN[0], Segment(st0, en0), "y")
             c.add(ANN[1], Segment(st1, en1), "x")
@@ -75,8 +76,8 @@ def harness(cfg, ns):
         else:
             c, info = common.build_continuum(ns, ctx, sizes, coords="sym", labels="x")
         cunits = [(a, u) for a, u in c]                    # (annotator, Unit) of the continuum
-        if cfg.get("history"):
-            for v in info.values():                        # so that the unit added later is genuinely new
+        if cfg.get("history") or (k == 1 and not cfg.get("coincide")):
+            for v in info.values():                        # so that the units added later (5000.., 9000..) are genuinely new
                 ctx.solver.add(v["start"].e >= -64, v["end"].e <= 64)
         inputs = [v[kk] for v in info.values() for kk in ("start", "end")]
         slots = []          # (annotator of the slot, start, end) for non-empty slots
@@ -97,7 +98,7 @@ def harness(cfg, ns):
                 if o == "foreign":
                     st, en = ctx.fresh(f"fs{u}_{a}_"), ctx.fresh(f"fe{u}_{a}_")
                     ctx.solver.add(en.e - st.e > lift(ns.pseg.SEGMENT_PRECISION))
-                    if cfg.get("history"):
+                    if cfg.get("history") or k == 1 or cfg.get("coincide"):
                         ctx.solver.add(st.e >= -64, en.e <= 64)
                     ctx.model = None
                     unit = co.Unit(Segment(st, en), "x")
@@ -165,6 +166,20 @@ def harness(cfg, ns):
             for nm, order in (("reversed", list(reversed(uas))), ("rotated", uas[1:] + uas[:1])):
                 obls.append(Obl(f"same-outcome-in-{nm}-order", outcome(order) == res, rz))
         obls.append(Obl("constructor-check_validity==check", outcome(list(uas), via_ctor=True) == res, rz))
+        # an alignment that carries ANOTHER continuum (the same one plus a far-away unit) and is checked against c explicitly: the
+        # verdict is the one for the continuum handed to check()
+        # (only where coordinates are bounded or the alignment is small: the far-away unit must not multiply the paths)
+        if cfg.get("history") or cfg.get("coincide") or k == 1:
+            other = c.copy()
+            other.add(ANN[0], Segment(core.const(9000), core.const(9001)), "x")
+            try:
+                cls(list(uas), other).check(c)
+                res_explicit = "ok"
+            except al.SetPartitionError:
+                res_explicit = "SetPartitionError"
+            except Exception as ex:     # noqa: BLE001
+                res_explicit = type(ex).__name__
+            obls.append(Obl("check(continuum)-judges-against-the-continuum-it-is-given", res_explicit == res, rz))
         if not cfg.get("history"):
             return obls
         # history: the same alignment object checked again after the continuum gained a unit it does not hold -> must now be rejected
@@ -277,6 +292,17 @@ def replay(case):
             bad.append("outcome depends on the order of unitary alignments")
     if outcome(list(uas), ctor=True) != res:
         bad.append("constructor check_validity differs from check()")
+    other = c.copy()
+    other.add(ANN[0], Segment(9000.0, 9001.0), "x")
+    try:
+        cls(list(uas), other).check(c)
+        res_explicit = "ok"
+    except SetPartitionError:
+        res_explicit = "SetPartitionError"
+    except Exception as ex:     # noqa: BLE001
+        res_explicit = type(ex).__name__
+    if res_explicit != res:
+        bad.append(f"an alignment built with another continuum and checked with check(c) gives {res_explicit}, check() on c gives {res}")
     if not case.get("history", True):
         return dict(reproduced=bool(bad), detail="; ".join(bad[:3]))
     Aobj = cls(list(uas), c)
